@@ -164,6 +164,53 @@ def rule_fmtmsg(text, ctx, where):
     return text, n
 
 
+def rule_fmt_concat(text, ctx, where):
+    """`format!("l0{}l1{}l2", a, b)` (a literal with plain `{}` placeholders) -> `fmt_cat(fmt_cat(fmt_lit("l0"), &(a)).., "l1") ..`: the literal pieces and the
+    `Display` texts of the arguments concatenated in order (shim trait FmtArg: String / &str as their text, usize / u32 as their decimal text); any other
+    format string (width, `{:?}`, named arguments) is left alone — and then does not compile"""
+    n = 0
+    pos = 0
+    while True:
+        m = mask(text)
+        mt = re.search(r"\bformat!\s*\(", m[pos:])
+        if not mt:
+            break
+        s = pos + mt.start()
+        b = pos + mt.end() - 1
+        e = match_delim(m, b)
+        inner = text[b + 1:e]
+        mi = mask(inner)
+        parts, depth, last = [], 0, 0
+        for i, ch in enumerate(mi):
+            if ch in "([{":
+                depth += 1
+            elif ch in ")]}":
+                depth -= 1
+            elif ch == "," and depth == 0:
+                parts.append(inner[last:i])
+                last = i + 1
+        parts.append(inner[last:])
+        parts = [x.strip() for x in parts if x.strip() != ""]
+        ms = re.fullmatch(r'"((?:[^"\\]|\\.)*)"', parts[0]) if parts else None
+        if not ms or "\\" in ms.group(1) or re.search(r"\{[^}]", ms.group(1)):
+            pos = e + 1
+            continue
+        lits = ms.group(1).split("{}")
+        args = parts[1:]
+        if len(lits) != len(args) + 1:
+            pos = e + 1
+            continue
+        out = f'fmt_lit("{lits[0]}")'
+        for k, a in enumerate(args):
+            out = f"fmt_arg({out}, &({a}))"
+            if lits[k + 1]:
+                out = f'fmt_str({out}, "{lits[k + 1]}")'
+        text = text[:s] + out + text[e + 1:]
+        pos = s + len(out)
+        n += 1
+    return text, n
+
+
 def rule_mutself(text, ctx, where):
     """`fn f(mut self, ..) { B }` -> `fn f(self, ..) { let mut self_ = self; B[self := self_] }` (Verus lacks `mut self`)"""
     m = mask(text)
@@ -966,7 +1013,7 @@ def rule_mem_take(text, ctx, where):
     return re.subn(r"\b(?:std::|core::)?mem::take\(\s*&mut\s+", "vec_take(&mut ", text)
 
 
-RULES = {"opt_filter": rule_opt_filter, "opt_unwrap_or_else": rule_opt_unwrap_or_else, "iter_find_map_fn": rule_iter_find_map_fn, "opt_is_none_or": rule_opt_is_none_or, "map_err_plain": rule_map_err_plain, "opt_is_some_and": rule_opt_is_some_and, "mem_take": rule_mem_take, "box_as_ref": rule_box_as_ref, "vec_retain": rule_vec_retain, "str_methods": rule_str_methods, "opt_and_then": rule_opt_and_then, "let_chain_rev": rule_let_chain_rev, "iter_find_map": rule_iter_find_map, "iter_rfind_map": rule_iter_rfind_map, "iter_all": rule_iter_all, "let_chain": rule_let_chain, "entry_or_insert_with": rule_entry_or_insert_with, "for_into_iter": rule_for_into_iter, "iter_map_collect": rule_iter_map_collect, "ok_or_else_q": rule_ok_or_else_q, "for_zip": rule_for_zip, "msg_to_string": rule_msg_to_string, "for_consume": rule_for_consume, "for_entries": rule_for_entries, "opt_map": rule_opt_map, "opt_or_else": rule_opt_or_else, "closure_inline": rule_closure_inline, "unreachable_partial": rule_unreachable_partial, "assert_partial": rule_assert_partial, "for_index": rule_for_index, "map_err_q": rule_map_err_q, "iter_any": rule_iter_any, "opt_map_or": rule_opt_map_or, "mutself": rule_mutself, "fmtmsg": rule_fmtmsg, "pubfields": rule_pubfields, "T": rule_T, "attrs": rule_attrs, "cell": rule_cell}
+RULES = {"fmt_concat": rule_fmt_concat, "opt_filter": rule_opt_filter, "opt_unwrap_or_else": rule_opt_unwrap_or_else, "iter_find_map_fn": rule_iter_find_map_fn, "opt_is_none_or": rule_opt_is_none_or, "map_err_plain": rule_map_err_plain, "opt_is_some_and": rule_opt_is_some_and, "mem_take": rule_mem_take, "box_as_ref": rule_box_as_ref, "vec_retain": rule_vec_retain, "str_methods": rule_str_methods, "opt_and_then": rule_opt_and_then, "let_chain_rev": rule_let_chain_rev, "iter_find_map": rule_iter_find_map, "iter_rfind_map": rule_iter_rfind_map, "iter_all": rule_iter_all, "let_chain": rule_let_chain, "entry_or_insert_with": rule_entry_or_insert_with, "for_into_iter": rule_for_into_iter, "iter_map_collect": rule_iter_map_collect, "ok_or_else_q": rule_ok_or_else_q, "for_zip": rule_for_zip, "msg_to_string": rule_msg_to_string, "for_consume": rule_for_consume, "for_entries": rule_for_entries, "opt_map": rule_opt_map, "opt_or_else": rule_opt_or_else, "closure_inline": rule_closure_inline, "unreachable_partial": rule_unreachable_partial, "assert_partial": rule_assert_partial, "for_index": rule_for_index, "map_err_q": rule_map_err_q, "iter_any": rule_iter_any, "opt_map_or": rule_opt_map_or, "mutself": rule_mutself, "fmtmsg": rule_fmtmsg, "pubfields": rule_pubfields, "T": rule_T, "attrs": rule_attrs, "cell": rule_cell}
 
 
 def apply_rules(text, rules, ctx, counts, where):
